@@ -1150,7 +1150,7 @@ func agree(args []string, v t38.Value, r t38.JSONReply, tnt *taint) (outcome, di
 				}
 				a, _ := bulkText(e.Arr[0])
 				b, _ := bulkText(e.Arr[1])
-				rs = append(rs, a+"|"+b)
+				rs = append(rs, lossy(a)+"|"+lossy(b))
 				js = append(js, fmt.Sprintf("%v|%v", m["ip"], m["port"]))
 			}
 			sort.Strings(rs)
